@@ -1098,6 +1098,11 @@ impl<'a, 'b> Gen<'a, 'b> {
                         self.op("getpath");
                         self.op("path");
                         let p = self.path(inp, 2, false);
+                        if !p.one {
+                            // getpath(f) with a multi-output f takes the first output only:
+                            // documented (jq-language.md, multi-output in non-fanout positions)
+                            return None;
+                        }
                         e1(format!("[getpath(path({}))]", p.t), Shape::ArrOf(Box::new(p.s)))
                     }
                     19 => {
